@@ -172,6 +172,8 @@ class Pack:
     # -- loops ---------------------------------------------------------------------
     def loop_contract(self, interp, node, env):
         """Find the Loop contract for a loop node of the function currently executed."""
+        if getattr(interp.ctx.run, "bounded_unroll", 0):
+            return None, None  # bounded stand-in: loop contracts are ignored, loops are unrolled
         mod = env.module
         # which function does this loop belong to?
         owner = None
